@@ -90,6 +90,32 @@ func makeRequest(kind string, session int, system []byte) ast.HSMSMessage {
 }
 
 func checkC14(c c14Case) (ci caseInfo, err error) {
+	if kind, long := strings.CutPrefix(c.Ctor, "longsys:"); long {
+		// more than four system bytes (the tail of a received frame, say): the documentation asks for four, so a refusal
+		// is fine - but whatever a constructor returns is a 14-byte message with the first four of them
+		ci.label("ctor:longer-system-bytes")
+		ci.Nontrivial = true
+		sys := append([]byte(nil), c.System...)
+		var msg ast.HSMSMessage
+		if p, _ := try(func() {
+			if kind == "reject.req" {
+				msg = ast.NewHSMSMessageRejectReq(uint16(c.Session), byte(c.PType), byte(c.SType), sys, byte(c.Code))
+			} else {
+				msg = makeRequest(kind, c.Session, sys)
+			}
+		}); p {
+			ci.label("longer-system-bytes:refused")
+			return ci, nil
+		}
+		b := msg.ToBytes()
+		if len(b) != 14 || !bytes.Equal(b[:4], []byte{0, 0, 0, 10}) || !bytes.Equal(b[10:14], sys[:4]) || msg.Type() != kind {
+			return ci, fmt.Errorf("%s built with %d system bytes %x: Type() %q, bytes %x (want 14 bytes, length 10, system bytes %x)", kind, len(sys), sys, msg.Type(), b, sys[:4])
+		}
+		if back, ok := hsms.Parse(b); !ok || !bytes.Equal(back.ToBytes(), b) {
+			return ci, fmt.Errorf("%s built with %d system bytes does not decode back (ok=%v)", kind, len(sys), ok)
+		}
+		return ci, nil
+	}
 	ci.label("ctor:" + c.Ctor)
 	ci.Nontrivial = c.Session != 0 || c.Code != 0 || c.Ctor == "raw"
 	sys := []byte(c.System)
@@ -248,6 +274,21 @@ func TestC14(t *testing.T) {
 			}
 		}
 		run(c14Case{Ctor: "linktest.req", Code: 0, Session: 0xFFFF, System: rsys()})
+	}
+	// request constructors handed more than four system bytes
+	for i := 0; i < 400; i++ {
+		r := rnd()
+		n := 5 + int(r>>8)%4
+		sys := make(model.HexBytes, n)
+		for j := range sys {
+			sys[j] = byte(r >> uint(8*(j%8)))
+		}
+		kind := []string{"select.req", "deselect.req", "linktest.req", "separate.req", "reject.req"}[i%5]
+		sess := int(r>>40) & 0xFFFF
+		if kind == "linktest.req" {
+			sess = 0xFFFF
+		}
+		run(c14Case{Ctor: "longsys:" + kind, Session: sess, PType: int(r>>16) & 0xFF, SType: int(r>>24) & 0xFF, Code: int(r>>32) & 0xFF, System: sys})
 	}
 	// boundary session ids crossed with every status / reason code (the sweeps above pair each code with one random session)
 	for _, sess := range []int{0, 1, 10, 255, 256, 0x0A00, 0x7FFF, 0x8000, 0xFFFE, 0xFFFF} {
